@@ -45,7 +45,7 @@ FLOORS = {"quick": {"judged": 4000, "expect_accept": 800,
                        "expect_reject": 60000, "texts_with_import": 80000}}
 HOOK_FLOORS = {"quick": {"addsubtype_during_schema_load": 100},
                "thorough": {"addsubtype_during_schema_load": 5000}}
-N_WORLDS = {"quick": 480, "thorough": 6000}
+N_WORLDS = {"quick": 960, "thorough": 6000}
 SEQS = {"quick": 10, "thorough": 20}
 
 
